@@ -2,6 +2,7 @@ package main
 
 import (
 	"context"
+	"runtime/debug"
 	"encoding/json"
 	"fmt"
 	"io"
@@ -134,6 +135,15 @@ type stubManager struct {
 	errs     map[stubKey]error
 	handlers map[xdsresource.ResourceType][]xdsresource.XDSUpdateHandler
 	gets     []stubKey
+	nils     map[stubKey]bool
+}
+
+// nilnil makes Get return (nil, nil) for k (a shape the real manager must never produce).
+func (s *stubManager) nilnil(k stubKey) {
+	if s.nils == nil {
+		s.nils = map[stubKey]bool{}
+	}
+	s.nils[k] = true
 }
 
 func newStub() *stubManager {
@@ -148,6 +158,9 @@ func (s *stubManager) Get(ctx context.Context, rt xdsresource.ResourceType, name
 	s.gets = append(s.gets, k)
 	if e, ok := s.errs[k]; ok {
 		return nil, e
+	}
+	if s.nils[k] {
+		return nil, nil
 	}
 	if r, ok := s.res[k]; ok {
 		return r, nil
@@ -167,6 +180,9 @@ func recoverTo(f func()) (panicked bool, msg string) {
 		if r := recover(); r != nil {
 			panicked = true
 			msg = fmt.Sprint(r)
+			if os.Getenv("XDSVERIF_STACK") != "" {
+				fmt.Fprintf(os.Stderr, "panic: %v\n%s\n", r, debug.Stack())
+			}
 		}
 	}()
 	f()
